@@ -114,7 +114,7 @@ extern int mpt_history_get(const MPT_STRUCT(history) *hist, MPT_STRUCT(property)
 				if ((ret = mpt_value_copy(&pc.val, pr->_buf, sizeof(pr->_buf))) < 0) {
 					return ret;
 				}
-				MPT_value_set(&pc.val, pc.val._type, pr->_buf);
+				MPT_value_set(&pr->val, pc.val._type, pr->_buf);
 			}
 			else {
 				MPT_value_set(&pr->val, pc.val._type, pc.val._addr);
